@@ -150,6 +150,12 @@ pub enum Op {
     Stop,
     /// repeat the method until it reports the end, then `extra` more times
     Drain(Method, u32),
+    /// C19: the following operations of this thread go to a clone of the original iterator, taken now
+    UseClone,
+    /// C19: the following operations go to a fresh iterator over the same collection
+    UseFresh,
+    /// C19: back to the original iterator (the thread's private iterator is dropped)
+    UseOriginal,
 }
 
 #[derive(Clone, Copy, Debug, PartialEq, Eq, Serialize, Deserialize)]
@@ -205,6 +211,8 @@ pub enum CallKind {
     Skip,
     IntoSeq,
     DropIter,
+    CloneIter,
+    FreshIter,
 }
 
 impl CallKind {
@@ -267,6 +275,9 @@ pub enum Res {
 
 #[derive(Clone, Debug, Serialize, Deserialize)]
 pub struct Call {
+    /// which iterator the call was made on: 0 = the original, others are clones / fresh iterators
+    #[serde(default)]
+    pub iter: u32,
     pub tid: usize,
     pub kind: CallKind,
     pub arg: usize,
@@ -332,6 +343,10 @@ fn take_panics() -> Vec<String> {
 
 // ---------------------------------------------------------------------------------------------
 // execution
+
+thread_local! {
+    static CUR_ITER: std::cell::Cell<u32> = const { std::cell::Cell::new(0) };
+}
 
 pub struct Ctx {
     pub calls: Mutex<Vec<Call>>,
@@ -432,6 +447,7 @@ fn call<F: FnOnce() -> Res>(ctx: &Ctx, tid: usize, kind: CallKind, arg: usize, f
     };
     let ret = sim::call_end();
     ctx.record(Call {
+        iter: CUR_ITER.with(|c| c.get()),
         tid,
         kind,
         arg,
@@ -683,6 +699,9 @@ where
                 sim::interesting();
             }
             Op::Stop => break,
+            Op::UseClone | Op::UseFresh | Op::UseOriginal => {
+                // handled by run_ops_multi, which splits the list at these markers
+            }
             Op::Drain(m, extra) => {
                 let mut after_end = 0u32;
                 let mut guard = 0usize;
@@ -824,6 +843,7 @@ fn patch_multi(
             Res::Panicked { .. } => {
                 // keep the panic, and remember what was visited before it in a sibling record
                 extra = Some(Call {
+                    iter: c.iter,
                     tid,
                     kind: c.kind,
                     arg: usize::MAX,
@@ -855,6 +875,89 @@ where
     C: ConcurrentIter,
     C::Item: Obs,
 {
+    drive_with(cfg, it, |itr, t, ops, ctx| run_ops(itr, t, ops, ctx))
+}
+
+/// C19: several iterators over one collection. `make` creates a fresh iterator over it.
+fn drive_multi<C, M>(cfg: &RunCfg, it: C, make: M) -> DriveOut
+where
+    C: ConcurrentIter + Clone,
+    C::Item: Obs,
+    M: Fn() -> C + Sync,
+{
+    drive_with(cfg, it, |itr, t, ops, ctx| {
+        run_ops_multi(itr, &make, t, ops, ctx)
+    })
+}
+
+/// Executes a thread's list, switching between the original iterator, clones of it and fresh
+/// iterators at the `Use*` markers. Every created iterator gets an id of its own.
+fn run_ops_multi<C, M>(orig: &C, make: &M, tid: usize, ops: &[Op], ctx: &Ctx)
+where
+    C: ConcurrentIter + Clone,
+    C::Item: Obs,
+    M: Fn() -> C,
+{
+    let mut private: Option<C> = None;
+    let mut serial = 0u32;
+    let mut start = 0usize;
+    let mut i = 0usize;
+    loop {
+        let at_marker = i < ops.len()
+            && matches!(ops[i], Op::UseClone | Op::UseFresh | Op::UseOriginal);
+        if i == ops.len() || at_marker {
+            let seg = &ops[start..i];
+            let stopped = seg.contains(&Op::Stop);
+            match &private {
+                Some(p) => run_ops(p, tid, seg, ctx),
+                None => run_ops(orig, tid, seg, ctx),
+            }
+            if i == ops.len() || stopped {
+                break;
+            }
+            // switch
+            let marker = ops[i];
+            if let Some(p) = private.take() {
+                drop(p);
+            }
+            CUR_ITER.with(|c| c.set(0));
+            match marker {
+                Op::UseClone | Op::UseFresh => {
+                    serial += 1;
+                    let id = (tid as u32 + 1) * 16 + serial;
+                    let mut created = None;
+                    let kind = if marker == Op::UseClone {
+                        CallKind::CloneIter
+                    } else {
+                        CallKind::FreshIter
+                    };
+                    CUR_ITER.with(|c| c.set(id));
+                    call(ctx, tid, kind, 0, || {
+                        created = Some(if marker == Op::UseClone {
+                            orig.clone()
+                        } else {
+                            make()
+                        });
+                        Res::Unit
+                    });
+                    private = created;
+                }
+                _ => {}
+            }
+            start = i + 1;
+        }
+        i += 1;
+    }
+    drop(private);
+    CUR_ITER.with(|c| c.set(0));
+}
+
+fn drive_with<C, R>(cfg: &RunCfg, it: C, runner: R) -> DriveOut
+where
+    C: ConcurrentIter,
+    C::Item: Obs,
+    R: Fn(&C, usize, &[Op], &Ctx) + Sync,
+{
     let ctx = Ctx {
         calls: Mutex::new(Vec::new()),
         closure_calls: std::sync::atomic::AtomicU32::new(0),
@@ -873,7 +976,7 @@ where
     if !cfg.pre.is_empty() {
         let itr = &it;
         let ctxr = &ctx;
-        sim::run_phase(&[pre_t], |t| run_ops(itr, t, &cfg.pre, ctxr));
+        sim::run_phase(&[pre_t], |t| runner(itr, t, &cfg.pre, ctxr));
     }
     // phase 2: the concurrent part
     {
@@ -881,7 +984,7 @@ where
         let ctxr = &ctx;
         let tids: Vec<usize> = (0..n).collect();
         sim::run_phase(&tids, |t| {
-            run_ops(itr, t, &cfg.threads[t], ctxr);
+            runner(itr, t, &cfg.threads[t], ctxr);
         });
     }
     // phase 3: terminal action (all other virtual threads joined), also a virtual thread so that
@@ -968,6 +1071,7 @@ where
                 }
             };
             ctx.record(Call {
+                iter: 0,
                 tid: term_t,
                 kind,
                 arg: 0,
@@ -1056,12 +1160,16 @@ pub fn execute(cfg: &RunCfg, run_no: u32) -> RunRecord {
             rec.base_addr = data.as_ptr() as usize;
             rec.elem_size = std::mem::size_of::<Elem>();
             let o = match cfg.kind {
-                Kind::Slice => drive(cfg, data.as_slice().into_con_iter()),
+                Kind::Slice => {
+                    drive_multi(cfg, data.as_slice().into_con_iter(), || {
+                        data.as_slice().into_con_iter()
+                    })
+                }
                 Kind::SliceRef => {
                     let s = data.as_slice();
-                    drive(cfg, s.con_iter())
+                    drive_multi(cfg, s.con_iter(), || s.con_iter())
                 }
-                _ => drive(cfg, data.con_iter()),
+                _ => drive_multi(cfg, data.con_iter(), || data.con_iter()),
             };
             check_source(&mut rec, &data, seed);
             o
@@ -1072,7 +1180,7 @@ pub fn execute(cfg: &RunCfg, run_no: u32) -> RunRecord {
                 arr: [Elem; N],
             ) -> (DriveOut, usize, bool, u32) {
                 let base = arr.as_ptr() as usize;
-                let o = drive(cfg, arr.con_iter());
+                let o = drive_multi(cfg, arr.con_iter(), || arr.con_iter());
                 let (intact, drops) = source_state(&arr, cfg.run_seed);
                 (o, base, intact, drops)
             }
@@ -1099,12 +1207,14 @@ pub fn execute(cfg: &RunCfg, run_no: u32) -> RunRecord {
         }
         Kind::Range => {
             let end = cfg.range_end.unwrap_or(cfg.start.wrapping_add(n));
-            drive(cfg, IntoConcurrentIter::into_con_iter(cfg.start..end))
+            drive_multi(cfg, IntoConcurrentIter::into_con_iter(cfg.start..end), || {
+                IntoConcurrentIter::into_con_iter(cfg.start..end)
+            })
         }
         Kind::RangeRef => {
             let end = cfg.range_end.unwrap_or(cfg.start.wrapping_add(n));
             let r = cfg.start..end;
-            let o = drive(cfg, r.con_iter());
+            let o = drive_multi(cfg, r.con_iter(), || r.con_iter());
             rec.source_intact = r == (cfg.start..end);
             o
         }
